@@ -74,78 +74,70 @@ where
 
         let (mut stream, buf, size, packet, state) = self.split_borrows_mut();
 
-        match *state {
-            PacketStreamState::Idle => {
-                let chunk_size = if packet.end - *size < DEFAULT_CHUNK_SIZE {
-                    DEFAULT_CHUNK_SIZE
-                } else {
-                    packet.end
-                };
+        // The state machine is driven in a loop (not by recursion, whose depth grew with the
+        // number of reads a packet needs). `Pending` is only ever returned straight from the
+        // reader, which has then registered the waker.
+        loop {
+            match *state {
+                PacketStreamState::Idle => {
+                    // Bytes of the current packet still missing (0 while its length is unknown).
+                    let missing = packet.end.saturating_sub(*size);
+                    let chunk_size = if missing < DEFAULT_CHUNK_SIZE {
+                        DEFAULT_CHUNK_SIZE
+                    } else {
+                        missing
+                    };
 
-                buf.resize(*size + chunk_size, 0);
+                    buf.resize(*size + chunk_size, 0);
 
-                if let Poll::Ready(result) = Pin::new(&mut stream)
-                    .poll_read(cx, &mut buf[*size..*size + chunk_size])
-                    .map(|res| res.ok().filter(|&size| size != 0 /* EOF */))
-                {
-                    if result.is_none() {
-                        return Poll::Ready(None);
-                    }
+                    match Pin::new(&mut stream).poll_read(cx, &mut buf[*size..*size + chunk_size]) {
+                        Poll::Pending => return Poll::Pending,
+                        Poll::Ready(Ok(read)) if read != 0 => {
+                            *size += read;
 
-                    *size += result.unwrap();
-
-                    // We need to be able to read at least fixed header and one byte of size to proceed.
-                    if *size >= 2 {
-                        *state = PacketStreamState::ReadPacketLen;
-                        return self.poll_next(cx);
-                    }
-                }
-
-                Poll::Pending
-            }
-            PacketStreamState::ReadPacketLen => {
-                // Omit packet ID, try to read the remaining length.
-                // Only the first `size` bytes of the buffer have been received.
-                let maybe_remaining_len =
-                    VarSizeInt::try_from(&buf[1..*size]).map(Some).or_else(|err| {
-                        if let ConversionError::InsufficientBufferSize(_) = err {
-                            return Ok(None); // Need to read more data
+                            // We need to be able to read at least fixed header and one byte of size to proceed.
+                            if *size >= 2 {
+                                *state = PacketStreamState::ReadPacketLen;
+                            }
                         }
-                        Err(err)
-                    });
-
-                if maybe_remaining_len.is_err() {
-                    return Poll::Ready(None);
+                        // EOF or transport error
+                        Poll::Ready(_) => return Poll::Ready(None),
+                    }
                 }
-
-                if let Some(remaining_len) = maybe_remaining_len.unwrap() {
-                    // Fixed header (1 byte), size of Variable Byte Integer
-                    // encoding the remaining length and its value.
-                    packet.start = 0;
-                    packet.end = 1 + remaining_len.len() + remaining_len.value() as usize;
-                    *state = PacketStreamState::ReadPacketData;
-                    return self.poll_next(cx);
+                PacketStreamState::ReadPacketLen => {
+                    // Omit packet ID, try to read the remaining length.
+                    // Only the first `size` bytes of the buffer have been received.
+                    match VarSizeInt::try_from(&buf[1..*size]) {
+                        Ok(remaining_len) => {
+                            // Fixed header (1 byte), size of Variable Byte Integer
+                            // encoding the remaining length and its value.
+                            packet.start = 0;
+                            packet.end = 1 + remaining_len.len() + remaining_len.value() as usize;
+                            *state = PacketStreamState::ReadPacketData;
+                        }
+                        Err(ConversionError::InsufficientBufferSize(_)) => {
+                            *state = PacketStreamState::Idle; // Need to read more data
+                        }
+                        Err(_) => return Poll::Ready(None),
+                    }
                 }
+                PacketStreamState::ReadPacketData => {
+                    if *size < packet.end {
+                        *state = PacketStreamState::Idle;
+                        continue;
+                    }
 
-                *state = PacketStreamState::Idle;
-                self.poll_next(cx)
-            }
-            PacketStreamState::ReadPacketData => {
-                if *size < packet.end {
-                    *state = PacketStreamState::Idle;
-                    return self.poll_next(cx);
+                    *size -= packet.len();
+                    if *size != 0 {
+                        *state = PacketStreamState::ReadPacketLen;
+                    } else {
+                        *state = PacketStreamState::Idle;
+                    }
+
+                    return Poll::Ready(Some(RxPacket::try_decode(
+                        buf.split_to(mem::replace(&mut packet.end, 0)).freeze(),
+                    )));
                 }
-
-                *size -= packet.len();
-                if *size != 0 {
-                    *state = PacketStreamState::ReadPacketLen;
-                } else {
-                    *state = PacketStreamState::Idle;
-                }
-
-                Poll::Ready(Some(RxPacket::try_decode(
-                    buf.split_to(mem::replace(&mut packet.end, 0)).freeze(),
-                )))
             }
         }
     }
